@@ -52,7 +52,7 @@ TRUSTED = [
 ASSUMPTIONS = ["tree-shaped inputs: no mutable object occurs at two positions", "no nan/inf/-0.0", "0 <= threshold_to_diff_deeper <= 1"]
 
 HEADER = ("From DD Require Import Base.PyStr Base.Value Diff.Tree Diff.DiffModel Diff.DiffShow "
-          "Hash.HashModel DiffIO.DiffIOModel DiffIO.DiffIOShow.\nLocal Open Scope Z_scope.")
+          "Hash.HashModel DiffIO.DiffIOModel DiffIO.DiffIOShow DiffIO.DiffIOMemo DiffIO.DiffIOMemoShow.\nLocal Open Scope Z_scope.")
 
 CUT_DIST = [0.05, 0.3, 1]
 CUT_INTER = [0, 0.7, 1]
@@ -521,6 +521,12 @@ FIXED_PAIRS = [
     ([[[1, 2, 3, 4], [5, 6, 7, 8]], [[1, 2, 3, 4], [5, 6, 7, 8]]], [[[5, 6, 7, 9], [1, 2, 3, 4]], [[1, 2, 3, 0], [8, 7, 6, 5]]]),
 ]
 
+ALIAS_FIXED = [
+    ([1.0, 1], [1]), ([1, 1.0], [1.0]), ([[1, 2], [1.0, 2]], [[2, 1]]), ([True, 1], [1, True]), ([0, False, 0.0], [0.0]),
+    ([(1, "a"), (1.0, "a")], [(True, "a")]), ({"a": [1], "b": [1.0, 2]}, {"b": [2, 1], "a": [1.0]}),
+    ([{1: "x"}, {1.0: "x"}], [{True: "x"}]), ([{1, 2}, {1.0, 2.0}], [{2, 1}]), ([[1.0], [1]], [[1], [1.0], [True]]),
+]
+
 FIXED_FINDINGS = [
     ([None], ["NONE"]),
     ([1], ["int:1"]),
@@ -547,8 +553,11 @@ FULL_KNOBS = [
 ]
 
 
-def model_expr(t1, t2, rep, thr, tbl):
-    return "run_io %s %s %s %s %s %s" % (
+def model_expr(t1, t2, rep, thr, tbl, memo=False):
+    """run_io: item hashes = hash_pure (the model the C05 theorems are about);
+    run_io_m: the shared hashes table threaded through the traversal (DiffIOMemo.v) - the only faithful
+    one when atoms that are == but not identical occur (1 / 1.0 / True: finding K2)"""
+    return "%s %s %s %s %s %s %s" % ("run_io_m" if memo else "run_io",
         D.coq_udiff_table(D.udiff_table(t1, t2)), D.coq_cfg(False, thr), core.coq_bool(rep),
         coq_pairs_table(tbl), V.to_coq(t1), V.to_coq(t2))
 
@@ -568,8 +577,12 @@ def _full_task(args):
                     continue
                 tbl, ok = rec
                 paired = sum(len(ji) for _p, ji, _x, _y in tbl)
+                alias = V.contains_alias(t1, t2)
                 out.append((kw, obs, coq_pairs_table(tbl), ok, unmod,
-                            (model_expr(t1, t2, rep, thr, tbl), coq_valid_arg(tbl), paired, len(tbl))))
+                            (model_expr(t1, t2, rep, thr, tbl, memo=alias), coq_valid_arg(tbl), paired, len(tbl))))
+                if not alias and not kn and thr == 0.33:
+                    # the memo-threading model must agree with the memo-free one where nothing aliases
+                    out.append((dict(kw, _memo_model=True), obs, None, ok, unmod, (model_expr(t1, t2, rep, thr, tbl, memo=True), "", 0, len(tbl))))
     return t1r, t2r, out
 
 
@@ -590,13 +603,19 @@ def correspondence(ctx, pairs, pool):
                 ctx.break_("correspondence", dict(tag, what="pairs were computed although max_passes=0 / cutoff_intersection_for_pairs=0"))
             if not ok:
                 ctx.break_("correspondence", dict(tag, what="recorded pairing is not a symmetric partial injection between added and removed hashes"))
+            if kw.get("_memo_model"):
+                ctx.count("full:memo_model_on_alias_free_input")
+                cases.append((expr, obs, tag))
+                continue
+            if V.contains_alias(from_repr(t1r), from_repr(t2r)):
+                ctx.count("full:alias_input(memo model)")
             ctx.count("full:pairing_off" if pairing_off else ("full:with_pairs" if paired else "full:pairing_on_no_pairs"))
             ctx.count("full:rep" if kw["report_repetition"] else "full:norep")
             ctx.count("full:empty_result" if obs == [[], []] else "full:nonempty_result")
             if obs[1]:
                 ctx.count("full:with_repetition_change")
             cases.append((expr, obs, tag))
-            if paired:
+            if paired and not V.contains_alias(from_repr(t1r), from_repr(t2r)):     # valid_pairs_at is stated on memo-free hashes
                 vcases.append(("run_valid %s %s %s" % (D.coq_cfg(False, kw["threshold_to_diff_deeper"]),
                                                         core.coq_bool(kw["report_repetition"]), varg), True, tag))
     ctx.coq_cases("io_full", HEADER, cases, shard=120, label="full_tree_result")
@@ -905,6 +924,13 @@ def run(ctx):
         for k in kinds or ["shuffle_only"]:
             ctx.count("edit:" + k.split(":")[0])
     full = list(FIXED_PAIRS) + [(a, b) for a, b, _k in gen[:n_full]]
+    # inputs with ==-aliasing atoms: only the memo-threading model describes them
+    alias_full = [(a, b) for a, b in FIXED_FINDINGS if V.contains_alias(a, b)] + list(ALIAS_FIXED)
+    while len(alias_full) < (60 if ctx.thorough else 14):
+        a, b, _k = gen_pair(rng, alias=True, depth=rng.choice([2, 3]))
+        if V.contains_alias(a, b):
+            alias_full.append((a, b))
+    full += alias_full
     for a, b in full[:2] + full[len(FIXED_PAIRS):len(FIXED_PAIRS) + 2]:
         ctx.sample({"t1": repr(a), "t2": repr(b)})
     with mp.get_context("fork").Pool(core.NCPU) as pool:
